@@ -1,11 +1,13 @@
 """C13 — symmetric face-integral variant = non-symmetric minus faces already reported by a constructed lower-index neighbour."""
-from . import rules
+from . import rules, dims
 from .. import smt, runner, extract
 
 
 def run(tier, seed):
     obs, fns = rules.emit_obligations("C13", want=("sym",))
     o2, f2 = rules.constructed_iff_selected_obligations("C13"); obs += o2; fns += f2
+    # both routes hand the same (normalised) box to the cells: a necessary part of 'integrator route == direct route'
+    o3, f3 = dims.normalisation_obligations("C13"); obs += o3; fns += f3
     smt.discharge_all(obs, tier)
     results = [runner.from_smt(o) for o in obs]
     meta = {
